@@ -34,8 +34,9 @@ CONSTANTS PatchPaths,   \* import paths a patch may mention
           MaxPatchImps, \* import lines per change
           Mode          \* "guards" (C10 universe) | "edits" (C11 universe)
 
-\* the package name an import path is assumed to provide (its last element)
-Base(path) == CASE path = "x/p" -> "p" [] path = "y/p" -> "p" [] path = "x/q" -> "q" [] path = "x/v2" -> "v2"
+\* the package name an import path is assumed to provide, as the Go tools assume it: its last element, or the
+\* one before it when the last is a major version ("example.com/x/v2" provides x)
+Base(path) == CASE path = "x/p" -> "p" [] path = "y/p" -> "p" [] path = "x/q" -> "q" [] path = "x/v2" -> "x"
                 [] path = "x/o" -> "o" [] path = "fmt" -> "fmt" [] OTHER -> "unknown"
 Alt(path) == "alt" \o Base(path)          \* a local name different from the base name
 
